@@ -547,6 +547,53 @@ def judge_solver_case(case, obs):
 
 
 # ---------------------------------------------------------------------------------------
+# long histories: tracker -> finalize -> file -> from_file
+# ---------------------------------------------------------------------------------------
+def run_long_history(n: int, seed: int, tmpdir: str):
+    """n frames on an 8-cell 1-d grid driven through DropletTracker.handle, written by finalize, read back."""
+    from pde import ScalarField, UnitGrid
+    from droplets import DropletTracker
+    from droplets.emulsions import EmulsionTimeCourse
+    grid = UnitGrid([8], periodic=False)
+    x = np.arange(8) + 0.5
+    shapes = [np.zeros(8)]  # no droplet
+    for lo, hi in ((1, 3), (2, 6), (4, 7), (0, 2), (5, 8)):
+        shapes.append(((x > lo) & (x < hi)).astype(float))  # one droplet, five different ones
+    both = ((x > 0) & (x < 2)) | ((x > 4) & (x < 7))
+    shapes.append(both.astype(float))  # two droplets
+    fields = [ScalarField(grid, d) for d in shapes]
+    rng = random.Random(seed)
+    kinds = [rng.choice([0, 0, 0, 1, 2, 3, 4, 5, 6]) for _ in range(n)]
+    times = [0.25 * i for i in range(n)]
+    path = os.path.join(tmpdir, f"long_{n}.hdf5")
+    with quiet():
+        tr = DropletTracker(1, filename=path)
+        for k, t in zip(kinds, times):
+            tr.handle(fields[k], t)
+        recorded = canon_tc(tr.data)
+        tr.finalize()
+        back = EmulsionTimeCourse.from_file(path, progress=False)
+        read = canon_tc(back)
+    os.remove(path)
+    return {"n": n, "recorded": recorded, "read": read, "times_fed": times}
+
+
+def judge_long_history(obs):
+    n = obs["n"]
+    rec, rd = obs["recorded"], obs["read"]
+    if len(rec["times"]) != n or [float(t) for t in rec["times"]] != obs["times_fed"]:
+        return [f"{n} frames handled, recorded times are not the fed ones ({len(rec['times'])} recorded)"]
+    if len(rd["times"]) != n or len(rd["emulsions"]) != n:
+        return [f"{n} frames recorded, file reads back {len(rd['times'])} times / {len(rd['emulsions'])} emulsions"]
+    for i in range(n):
+        if float(rd["times"][i]) != float(rec["times"][i]) or rd["emulsions"][i] != rec["emulsions"][i]:
+            return [f"history of {n} frames: the file written by finalize reads back different at frame {i}: recorded "
+                    f"(t={rec['times'][i]}, {[(c, bytes_to_floats(x)) for c, _, x in rec['emulsions'][i]]}), read "
+                    f"(t={float(rd['times'][i])}, {[(c, bytes_to_floats(x)) for c, _, x in rd['emulsions'][i]]})"]
+    return []
+
+
+# ---------------------------------------------------------------------------------------
 # Coq literals
 # ---------------------------------------------------------------------------------------
 class Ids:
@@ -868,6 +915,19 @@ def check(ctx: vlib.Ctx) -> int:
         for f in fails[:1]:
             violations.append({"what": f, "input": case, "found": True, "kind": "solver"})
 
+    # ---- long histories through finalize -> file -> from_file (key order of the file format)
+    for n in ([1100] if ctx.quick else [1100, 10010]):
+        obs = run_long_history(n, ctx.seed, str(tmpdir))
+        fails = judge_long_history(obs)
+        ctx.case(["long_history", n, ctx.seed])
+        ctx.count("long_history_frames", n)
+        ctx.count("long_history_droplets_per_frame",
+                  "/".join(str(sum(1 for e in obs["recorded"]["emulsions"] if len(e) == k)) for k in (0, 1, 2)) + " (0/1/2)")
+        for f in fails[:1]:
+            violations.append({"what": "DropletTracker finalize/from_file: " + f,
+                               "input": {"frames": n, "seed": ctx.seed, "grid": "UnitGrid([8])"}, "found": True,
+                               "kind": "long"})
+
     # ---- correspondence inside Coq (needs the generated tables)
     if gen_ok and ok:
         ptab = parse_table_literal(vid, default_texts())
@@ -929,6 +989,10 @@ def replay(path: str) -> int:
         for n, o in obs["offline"].items():
             print(f"offline[{n}]:", o[0], o[1] if o[0] == "err" else
                   [[(c, bytes_to_floats(x)) for c, _, x in e] for e in o[1]["emulsions"]])
+    elif kind == "long":
+        d = vlib.BUILD / "cases" / "C14" / "replay_tmp"
+        d.mkdir(parents=True, exist_ok=True)
+        fails = judge_long_history(run_long_history(case["frames"], case["seed"], str(d)))
     elif kind == "length":
         obs = run_length_case(case)
         fails = judge_length_case(case, obs)
